@@ -19,8 +19,9 @@ for pid in sorted(os.listdir(SEEDS)):
         if os.path.exists(os.path.join(d, k, "patch.diff")):
             jobs.append((pid, k))
 jobs = [j for i, j in enumerate(jobs) if i % N == W]
-wt = "/tmp/seedwt%s-%d" % ("b" if KOFF else "", W)
-tgt = "/tmp/seedtarget%s-%d" % ("b" if KOFF else "", W)
+TAG = os.environ.get("WT_TAG", "b" if KOFF else "")
+wt = "/tmp/seedwt%s-%d" % (TAG, W)
+tgt = "/tmp/seedtarget%s-%d" % (TAG, W)
 subprocess.call(["git", "-C", "/repo", "worktree", "remove", "--force", wt], stderr=subprocess.DEVNULL)
 subprocess.check_call(["git", "-C", "/repo", "worktree", "add", "-q", "--detach", wt, "HEAD"])
 shutil.copy("/repo/Cargo.lock", wt)
@@ -52,7 +53,7 @@ for (pid, k) in jobs:
     if os.path.exists(os.path.join(dst, "meta.json")):
         continue
     t0 = time.time()
-    meta = {"property": pid, "seed": str(int(k) + KOFF if KOFF else k), "base_commit": head, "confirmed": False, "round": 2 if KOFF else 1}
+    meta = {"property": pid, "seed": str(int(k) + KOFF if KOFF else k), "base_commit": head, "confirmed": False, "round": int(os.environ.get("ROUND", 2 if KOFF else 1))}
     feats = "fusedev,virtiofs,vhost-user-fs,persist" + (",async-io" if pid == "C20" or "async_io.rs" in open(os.path.join(src, "demo.diff")).read()[:400] or os.environ.get("FORCE_ASYNC") else "")
     reset()
     rc, out = sh(["git", "apply", "--check", os.path.join(src, "patch.diff")])
